@@ -182,6 +182,31 @@ def record(chk: Check, n):
         o = arr.oriented()
         chk.count()
         recs.append(dict(op="oriented", kind=kind, elem=dict(null=False, g=e["g"]), res=geom.from_array(kind, o)[0]))
+    # integer subtypes with rings of area exactly 1/2 (primitive lattice triangles), as shells and as holes, both ways round
+    def area2(r):
+        return sum(r[k][0] * r[(k + 1) % len(r)][1] - r[(k + 1) % len(r)][0] * r[k][1] for k in range(len(r)))
+    tri = [[[2, 2], [3, 2], [2, 3], [2, 2]], [[14, 2], [15, 3], [16, 5], [14, 2]], [[5, 5], [5, 6], [6, 6], [5, 5]]]
+    shell = [[0, 0], [20, 0], [20, 20], [0, 20], [0, 0]]
+    for st in ("int8", "int16", "int32", "int64"):
+        rows = []
+        for t in tri:
+            for rv in (False, True):
+                t2 = t[::-1] if rv else t
+                rows.append([[t2]])                              # the triangle as a shell
+                rows.append([[shell, t2]])                       # ... and as a hole
+        src = [[[[c for v in r for c in v] for r in part] for part in row][0] for row in rows]
+        arr = geom.PolygonArray(src + [None], dtype=st)
+        o = arr.oriented().data.to_pylist()
+        chk.count(len(rows))
+        for row, got in zip(rows, o):
+            rings = row[0]
+            for ri, (r, g) in enumerate(zip(rings, got)):
+                gp = [[g[k], g[k + 1]] for k in range(0, len(g), 2)]
+                wantccw = ri == 0
+                if (gp != r and gp != r[::-1]) or (area2(gp[:-1]) > 0) != wantccw:
+                    chk.violation(f"halfarea|{st}", f"PolygonArray[{st}].oriented(): ring {ri} of {rings} comes out as {gp} - a ring of area 1/2 must run "
+                                  f"{'counter-clockwise (shell)' if wantccw else 'clockwise (hole)'}", "", ctx=dict(site="oriented", mode="half-area", subtype=st))
+                    break
     # polygons with MANY holes (perforated plates: 300 and 520 unit holes in a 60 x 60 shell, windings mixed) - ring counters of any width
     for nh, kind in ((300, "polygon"), (520, "multipolygon")):
         shell = [[0, 0], [0, 60], [60, 60], [60, 0], [0, 0]]            # clockwise shell: must be reversed
